@@ -23,9 +23,24 @@ def check_event_names():
     return [k for k, v in want.items() if getattr(Events, k, None) != v]
 
 
+CODE_POOL = ["M106", "M104", "M400", "M140", "M107", "M900", "M220", "G4", "M117", "M204", "M205", "M73"]
+
+
+def code_gen(settings):
+    """Commands for codes that are, were or may become configured as extended codes (so that a stale table shows)."""
+    pool = sorted(set(CODE_POOL) | set(settings.get("ext") or {}))
+    n = [0]
+
+    def gen(rnd):
+        n[0] += 1
+        c = rnd.choice(pool)
+        return "%s %s" % (c, "hello %d" % n[0] if c == "M117" else "S%d" % (n[0] % 250))
+    return gen
+
+
 def program(rnd, regs, settings, n=None, feats=None):
     f = mk(rel=rnd.random() < 0.4, inch=rnd.random() < 0.3, arcs=rnd.random() < 0.5, at=True, fw=rnd.random() < 0.3,
-           g92e_retracted=True, p_inside=0.5)
+           g92e_retracted=True, p_inside=0.5, extgen=code_gen(settings), p_ext=0.04)
     if f["fw"]:
         f["fwparam"] = rnd.choice(["", "S1"])
     if feats:
@@ -103,7 +118,7 @@ def gen_history(rnd, regs, settings, nblocks=None):
             if q < 0.35:
                 # change the mode of a configured code / add or drop one
                 ext = dict(settings["ext"])
-                code = rnd.choice(sorted(ext) + ["M900", "M220"])
+                code = rnd.choice(sorted(ext) + ["M900", "M220", "M106", "M104", "M400", "M140", "M107"])
                 if code in ext and rnd.random() < 0.3 and len(ext) > 1:
                     del ext[code]
                 else:
